@@ -576,6 +576,13 @@ def install(eng):
             return EnumV(oty, 1, {'Err': {0: Cell(payload0(eng, r, 'Err'))}}, None, ed)
         return eng.call_value(ctx.frame, f, [payload0(eng, r, 'Ok')])
     m(r'^(std::result::|core::result::)?Result::and_then$', m_res_and_then)
+
+    def m_expect_err(eng, args, ctx):
+        r = args[0]
+        if variant_is(eng, r, 1):
+            return payload0(eng, r, 'Err')
+        raise PathEnd('panic', ('expect_err on Ok', ctx.norm, None))
+    m(r'^(std::result::|core::result::)?Result::(expect_err|unwrap_err)$', m_expect_err)
     def m_opt_and_then(eng, args, ctx):
         e, f = args
         oty = norm_ty(ctx.dest_ty) if ctx.dest_ty else 'Option'
